@@ -5,9 +5,9 @@ CONSTANTS
   Shapes = {"v4", "v6", "zero", "empty"}
   MaxSteps = 5
   Births = TRUE
-  LoseMarker = TRUE
+  LoseMarker = FALSE
   EmptyUnmarked = FALSE
-  SubLosesMarker = FALSE
+  SubLosesMarker = TRUE
 INIT Init
 NEXT Next
 VIEW View
